@@ -711,6 +711,8 @@ _SIG_KEY: T.Tuple[str, ...] = ()
 _SIG_MODS: T.List[T.Any] = []
 
 
+_RECORDS: T.Dict[str, T.List[str]] = {}        # NamedTuple / dataclass record classes of the modules: class name -> field names in order
+_RET_RECORD: T.Dict[str, str] = {}             # function name -> record class it is annotated to return (unique per name)
 _TABLES: T.Dict[str, ast.Dict] = {}            # module-level NAME = {const: const, ...}, assigned once
 _CONSTS: T.Dict[str, ast.Constant] = {}        # module-level NAME = <literal>, assigned once
 _CLASS_CONSTS: T.Dict[str, ast.Constant] = {}  # class-level NAME = <literal>, unique over the classes of the modules
@@ -763,6 +765,17 @@ def set_signatures(*mods: T.Any) -> None:
     _CONSTS.clear()
     _CLASS_CONSTS.clear()
     _TABLES.clear()
+    _RECORDS.clear()
+    _RET_RECORD.clear()
+    for m in mods:
+        for q, c in m.classes().items():
+            if '.' in q or '#' in q:
+                continue
+            bases = {(b.attr if isinstance(b, ast.Attribute) else getattr(b, 'id', '')) for b in c.bases}
+            decos = {(d.attr if isinstance(d, ast.Attribute) else getattr(d, 'id', getattr(getattr(d, 'func', None), 'attr', ''))) for d in c.decorator_list}
+            plain = not any(isinstance(x, (ast.FunctionDef, ast.AsyncFunctionDef)) and x.name in ('__new__', '__init__', '__post_init__', '__getattr__') for x in c.body)
+            if plain and ('NamedTuple' in bases or (decos & {'dataclass'} and not c.bases)):
+                _RECORDS[q] = [st.target.id for st in c.body if isinstance(st, ast.AnnAssign) and isinstance(st.target, ast.Name)]
     for m in mods:
         _collect_constants(m)
         _CLASSES.update(q for q in m.classes() if '.' not in q)
@@ -783,11 +796,39 @@ def set_signatures(*mods: T.Any) -> None:
                 dflt.update({p.arg: norm(d) for p, d in zip(a.kwonlyargs, a.kw_defaults) if isinstance(d, ast.Constant)})
                 sig = (tuple(pos), tuple(p.arg for p in a.kwonlyargs), tuple(sorted(dflt.items())))
             name = f.name
+            rr = f.returns.id if isinstance(f.returns, ast.Name) else (f.returns.value if isinstance(f.returns, ast.Constant) and isinstance(f.returns.value, str) else None)
+            if rr in _RECORDS:
+                _RET_RECORD[name] = '?' if _RET_RECORD.get(name, rr) != rr else rr
             if name in _SIGS and _SIGS[name] != sig:
                 _SIGS[name] = None
             else:
                 _SIGS[name] = sig
     _SIG_KEY = key
+
+
+def _canon_record(e: T.Any) -> T.Any:
+    """a record is a tuple with named positions: `Rec(a, y=b)` -> `(a, b)`;  `f(...).y` -> `f(...)[1]` when f is annotated to
+    return Rec"""
+    if isinstance(e, ast.Call) and isinstance(e.func, ast.Name) and e.func.id in _RECORDS and not any(isinstance(a, ast.Starred) for a in e.args) \
+            and not any(k.arg is None for k in e.keywords):
+        fields = _RECORDS[e.func.id]
+        bound: T.Dict[str, ast.AST] = dict(zip(fields, e.args))
+        for k in e.keywords:
+            if k.arg not in fields or k.arg in bound:
+                return e
+            bound[k.arg] = k.value  # type: ignore[index]
+        if len(e.args) <= len(fields) and set(bound) == set(fields):
+            return ast.Tuple(elts=[bound[f] for f in fields], ctx=ast.Load())
+        return e
+    if isinstance(e, ast.Attribute) and isinstance(e.ctx, ast.Load):
+        v = e.value
+        if isinstance(v, ast.Call):
+            f = v.func
+            name = f.attr if isinstance(f, ast.Attribute) else (f.id if isinstance(f, ast.Name) else None)
+            rec = _RET_RECORD.get(name or '')
+            if rec and rec != '?' and e.attr in _RECORDS[rec]:
+                return ast.Subscript(value=v, slice=ast.Constant(value=_RECORDS[rec].index(e.attr)), ctx=ast.Load())
+    return e
 
 
 def canon_call(c: ast.Call) -> ast.Call:
@@ -885,11 +926,12 @@ def fsub(env: T.Dict[str, ast.AST], e: T.Any, blocked: T.FrozenSet[str] = frozen
         else:
             vals[name] = old
     if not changed:
-        return canon_call(e) if isinstance(e, ast.Call) else e
+        return _canon_record(canon_call(e)) if isinstance(e, ast.Call) else _canon_record(e)
     node = e.__class__(**vals)
     if isinstance(node, ast.Call):
         node = canon_call(node)
-    return ast.copy_location(node, e) if hasattr(e, 'lineno') else node
+    node = _canon_record(node)
+    return ast.copy_location(node, e) if hasattr(e, 'lineno') and not hasattr(node, 'lineno') else node
 
 
 def sub(env: T.Dict[str, ast.AST], e: ast.AST) -> ast.AST:
